@@ -921,9 +921,10 @@ static ares_status_t ares_dns_write_rr_raw_rr(ares_buf_t          *buf,
     return status;
   }
 
-  /* Output raw data */
+  /* Output raw data.  An RR parsed with an empty RDATA carries no data
+   * pointer, that is not an error */
   data = ares_dns_rr_get_bin(rr, ARES_RR_RAW_RR_DATA, &data_len);
-  if (data == NULL) {
+  if (data == NULL && data_len != 0) {
     return ARES_EFORMERR;
   }
 
